@@ -82,12 +82,46 @@ func c09(c *Ctx) {
 						R.Fail("C09.page-exit", key, pos, "page loop exit", "undecided: unconditional exit")
 						continue
 					}
-					x, op, y, okc := cmpOf(facts.Fact{Cond: iff.Cond, Pol: k == 0})
+					cond, pol := iff.Cond, k == 0
+					for {
+						u, isNot := cond.(*ssa.UnOp)
+						if !isNot || u.Op != token.NOT {
+							break
+						}
+						cond, pol = u.X, !pol
+					}
+					// a loop controlled by a flag (`for done := false; !done; { …; done = a >= b }`): the
+					// exit is taken exactly when the value assigned on the back edge has the exit polarity
+					if ph, isPhi := cond.(*ssa.Phi); isPhi && ph.Block() == inner.Header {
+						var latchV ssa.Value
+						flag := true
+						for pi, e := range ph.Edges {
+							if body[ph.Block().Preds[pi]] {
+								if latchV != nil && latchV != e {
+									flag = false
+								}
+								latchV = e
+							} else if cv, isC := isBoolConstV(e); !isC || cv == pol {
+								flag = false
+							}
+						}
+						if flag && latchV != nil {
+							cond = latchV
+						}
+					}
+					x, op, y, okc := cmpOf(facts.Fact{Cond: cond, Pol: pol})
 					if !okc {
 						R.Fail("C09.page-exit", key, pos, "page loop exit", "undecided: exit condition is not a comparison: "+facts.Term(iff.Cond))
 						continue
 					}
 					tx, ty := facts.Term(x), facts.Term(y)
+					// a count or cursor obtained through a local helper literal
+					if ls := c08cursorLeaves(x); len(ls) == 1 {
+						tx = facts.Term(ls[0].v)
+					}
+					if ls := c08cursorLeaves(y); len(ls) == 1 {
+						ty = facts.Term(ls[0].v)
+					}
 					isCursor := func(t string) bool { return strings.HasSuffix(t, ".NextStart") || t == "phi:fromIndex" }
 					isCount := func(t string) bool {
 						return strings.HasPrefix(t, "*(*N/alephium.Client).GetContractEventsCount(")
@@ -616,7 +650,7 @@ func c09poller(c *Ctx, a *alphAnchors) {
 				fs := facts.Atoms(facts.At(x, nil))
 				ok := false
 				for _, at := range fs {
-					if strings.HasPrefix(at, "0 == len(") && strings.Contains(at, "pendingEvents") || strings.HasPrefix(at, "len(") && strings.HasSuffix(at, " == 0") {
+					if strings.HasPrefix(at, "0 == len(") && (strings.Contains(at, "pendingEvents") || pend != nil && at == "0 == len("+facts.Term(pend)+")") || strings.HasPrefix(at, "len(") && strings.HasSuffix(at, " == 0") {
 						ok = true
 					}
 				}
@@ -634,7 +668,7 @@ func c09poller(c *Ctx, a *alphAnchors) {
 		case *ssa.MapUpdate:
 			return strings.Contains(facts.Term(x.Map), "pendingEvents") || x.Map == ssa.Value(pend)
 		case *ssa.Store:
-			return fieldOfAddr(x.Addr) == evF && !isFreshAlloc(x.Addr)
+			return fieldOfAddr(x.Addr) == evF && !isFreshAlloc(x.Addr) && !inPendingPass(x.Block())
 		}
 		return false
 	}
